@@ -11,7 +11,7 @@ from __future__ import annotations
 import ast
 
 from ..flow import FlowAnalysis, has_event, may_event
-from ..model import AnalysisError, FuncInfo, call_name, last_attr, unparse, walk_no_nested
+from ..model import AnalysisError, FuncInfo, call_name, last_attr, names_in, unparse, walk_no_nested
 from ..sites import pipeline_applies, site_writes
 
 # calls whose success depends on the content / existence of the target file
@@ -202,6 +202,34 @@ def rule_no_changeset_on_failure(ctx, rep):
         raise AnalysisError("no pipeline path records a failure: add_failure anchor vanished")
 
 
+FS_TOUCH = {"stat", "lstat", "exists", "is_file", "is_dir", "read_bytes", "read_text", "open", "resolve", "samefile", "owner", "readlink"}
+
+
+def rule_worker_no_raise(ctx, rep):
+    rep.rule(
+        "R-WORKER-NO-RAISE",
+        "the per-file worker _process_file touches the file system for its file only through the pipeline (whose apply() isolates "
+        "failures): no stat/exists/read/open on the file outside a try in the worker itself — an exception there escapes through "
+        "executor.map and aborts the run (e.g. a file vanishing mid-run)",
+        min_instances=1,
+    )
+    fn = ctx.prog.func("codemodder.codemods.base_codemod.BaseCodemod._process_file")
+    bad = []
+    for c in walk_no_nested(fn.node):
+        if isinstance(c, ast.Call):
+            la = last_attr(c.func)
+            touches = (isinstance(c.func, ast.Attribute) and la in FS_TOUCH and "filename" in names_in(c.func.value)) or (
+                call_name(c) in ("open", "os.stat", "os.path.getsize", "os.path.exists", "os.path.isfile", "os.path.getmtime") and c.args and "filename" in names_in(c.args[0])
+            )
+            if touches and _enclosing_try(ctx, fn, c) is None:
+                bad.append(c)
+    rep.check("R-WORKER-NO-RAISE", fn.qname, fn.loc(bad[0]) if bad else fn.loc(), not bad, "fs-access-in-worker",
+              "worker accesses the file system outside any try: " + ", ".join(f"`{unparse(b)[:40]}`" for b in bad))
+    # the pipeline call itself is the only thing that handles the file
+    applies = [c for c in walk_no_nested(fn.node) if isinstance(c, ast.Call) and last_attr(c.func) == "apply" and "transformer" in unparse(c.func)]
+    rep.check("R-WORKER-NO-RAISE", fn.qname, fn.loc(applies[0]) if applies else fn.loc(), len(applies) == 1, "single-pipeline-call", "worker does not hand the file to exactly one pipeline call")
+
+
 def rule_exit_zero(ctx, rep):
     from .c20 import rule_zero_after_report
 
@@ -217,6 +245,10 @@ def check(ctx, rep):
     rule_fail_isolated(ctx, rep)
     rule_failure_unfixed(ctx, rep)
     rule_no_changeset_on_failure(ctx, rep)
+    rule_worker_no_raise(ctx, rep)
+    from .c03 import rule_codec_agree
+
+    rule_codec_agree(ctx, rep)
     rule_exit_zero(ctx, rep)
     rep.not_covered += [
         "that other files get byte-identical outcomes under a fault (runtime behaviour)",
